@@ -28,6 +28,9 @@ claimed = {
  "C13": dict(cat="model_checking",
    text="Every well-formed program of L=3 (quick) / 4 (thorough) statement operations - Allocate, Pipeline (both updateTaskIfExistsOnNode values where the actions can pass them), Evict, Unevict, Checkpoint, Rollback(any earlier checkpoint), end - over 2 tasks / 1 node (quick) or 3 tasks / 2 nodes (thorough), from every initial session state (each task Pending, Running or Releasing, placed by the real NodeInfo.AddTask) with symbolic node capacity and task requests, is run through the real framework.Statement on a session with the real proportion allocate/deallocate handlers. After Discard, and after every Rollback, the solver decides term-by-term equality of a canonical dump (node idle/used/releasing in structured and vector form, shared-GPU maps, pods on node, task status/node/groups/virtual flag, job allocated + status index + counters + pod-set counters, queue allocated and non-preemptible at both levels) with the dump taken at that point, and that the cache saw no call; after Commit, each pod is bound, nominated or evicted at most once and exactly the pods whose final virtual status is Allocated / Pipelined / Releasing. Exhaustive over programs within the bound; quantities symbolic.",
    ref="DESIGN.md section 5 C13"),
+ "C16": dict(cat="model_checking",
+   text="Order kernels, decided for all int32 priorities and all creation times: (K1) the session's real job order (Session.JobOrderFn with the real priority and elastic order functions in default-configuration order and the creation-time/UID tail) on three same-shape pending jobs is irreflexive, asymmetric, total and transitive, puts higher priority first and the older job first at equal priority; (K2) the scheduler's real PriorityQueue (container/heap) driven by that order pops three such jobs - pushed in any permutation, optionally after a pop/re-push - never lower priority before higher nor younger before older among equals. The allocate action around the queue (queue order across leaf queues, JobsOrderByQueues re-ordering) is not executed: whether a placed lower-priority job can coexist with an unplaced higher one at action level is outside this check.",
+   ref="DESIGN.md section 5 C16"),
  "C06": dict(cat="model_checking",
    text="Victim-eligibility kernels, decided for all values: (a) the real preempt filter (actions/preempt.buildFilterFuncForPreempt with the real minruntime plugin registered through its OnSessionOpen): symbolic preemptibility, int32 priorities of both jobs, victim queue, active pod, start time (age 0..1023 h) and per-queue preempt min-runtimes (unset or 0..1023 h) on a 3-level queue chain; accepted => preemptible, same queue, strictly lower priority, has active pods, age >= the min-runtime resolved by the documented rule (oracle walks the harness's own tree). (b) the real reclaim victims queue (actions/reclaim.getOrderedVictimsQueue -> JobsOrderByQueues.InitializeWithJobs with FilterNonPreemptible/FilterNonActiveAllocated + minruntime reclaim filter) for LCA and queue resolution on a two-tree hierarchy; accepted => preemptible, other queue, active pods, age >= documented resolution. Time is the engine's deterministic clock and durations are whole hours. Elastic-victim scenario validators, consolidation's re-placement rule and the evict/place co-commit are not yet covered by a kernel (co-commit partly by C13's commit kernel).",
    ref="DESIGN.md section 5 C06"),
